@@ -32,10 +32,13 @@ var repoRoot = func() string {
 
 // what the scenario hands to the batch oracle
 var last struct {
-	sys    tlc.System
-	key    string // system + constants: traces with equal key share one TLC run
-	trace  tlc.Trace
-	valid  bool
+	sys   tlc.System
+	key   string // system + constants: traces with equal key share one TLC run
+	trace tlc.Trace
+	valid bool
+	// the run ended with an assertion failure reported by the generated Go: the action and
+	// the process it belongs to; the last state of the trace is the state it failed in
+	assertAction, assertSelf, assertWhat string
 }
 
 type stepper interface {
@@ -49,7 +52,16 @@ type aux struct {
 	Step    func() string
 }
 
+// actionOf gives the name of the TLA+ action of a label ("AServer.handleMsg" -> "handleMsg").
+func actionOf(pc string) string {
+	if i := strings.LastIndex(pc, "."); i >= 0 {
+		return pc[i+1:]
+	}
+	return pc
+}
+
 func runSystem(w *sim.World, wd *env.World, sys tlc.System, key string, st stepper, settle func(bool), maxSteps int, auxs ...aux) {
+	failedAction, failedSelf, failedWhat := "", "", ""
 	tr := tlc.Trace{}
 	tr.States = append(tr.States, st.State())
 	tr.Steps = append(tr.Steps, "initial")
@@ -92,16 +104,22 @@ func runSystem(w *sim.World, wd *env.World, sys tlc.System, key string, st stepp
 			w.Fail("go_panic_"+sys.Name, "%s panicked at %s: %v | state %s", a.Name, a.PC, a.Panic, wd.Render())
 		}
 		if a.Done() && a.Err != nil {
-			// an assertion of the spec failed in Go: TLC must agree that the step is an
-			// assertion failure; recorded as a separate rule (none of the shipped systems
-			// is expected to fail assertions under its own environment)
-			w.Fail("go_assertion_"+sys.Name, "%s ended with %v at %s | state %s", a.Name, a.Err, a.PC, wd.Render())
+			if !env.IsAssertion(a.Err) {
+				w.Fail("go_error_"+sys.Name, "%s ended with %v at %s | state %s", a.Name, a.Err, a.PC, wd.Render())
+			}
+			// an assertion of the spec failed in Go: the specification must fail there too (TLC
+			// evaluates the action in the recorded state, in the batch oracle)
+			failedAction, failedSelf = actionOf(a.PC), tlc.Render(a.Self)
+			failedWhat = fmt.Sprintf("%s ended with %v at %s", a.Name, a.Err, a.PC)
+			w.Probe("go_assertion_failure_judged_by_tlc")
+			break
 		}
 	}
 	w.Count("spec_steps_"+sys.Name, len(tr.States)-1)
 	w.Count("spec_steps", len(tr.States)-1)
 	w.Probe("system_" + sys.Name)
 	last.sys, last.key, last.trace, last.valid = sys, key, tr, true
+	last.assertAction, last.assertSelf, last.assertWhat = failedAction, failedSelf, failedWhat
 	wd.StopAll()
 }
 
@@ -166,9 +184,16 @@ func scenario(w *sim.World) {
 		w.Count("spec_steps_raftkvs", len(out.Trace.States)-1)
 		w.Count("spec_steps", len(out.Trace.States)-1)
 		w.Probe("system_raftkvs")
+		last.assertAction, last.assertSelf, last.assertWhat = "", "", ""
 		for _, f := range out.Failures {
 			if strings.HasPrefix(f, "archetype_failed|") {
-				w.Fail("go_failure_raftkvs", "%s", f)
+				a := out.FailedActor
+				if a == nil || a.Panic != nil || !env.IsAssertion(a.Err) {
+					w.Fail("go_failure_raftkvs", "%s", f)
+				} else {
+					last.assertAction, last.assertSelf, last.assertWhat = actionOf(a.PC), tlc.Render(a.Self), f
+					w.Probe("go_assertion_failure_judged_by_tlc")
+				}
 			}
 		}
 		last.sys, last.key, last.trace, last.valid = sys, fmt.Sprintf("raftkvs/%v", sys.Consts), out.Trace, true
@@ -186,9 +211,10 @@ type batch struct {
 }
 
 type group struct {
-	sys    tlc.System
-	idxs   []uint64
-	traces []tlc.Trace
+	sys     tlc.System
+	idxs    []uint64
+	traces  []tlc.Trace
+	asserts map[uint64][3]string // run index -> action, self, description of the Go failure
 }
 
 func (b *batch) Collect(idx uint64, res *sim.Result) {
@@ -205,6 +231,12 @@ func (b *batch) Collect(idx uint64, res *sim.Result) {
 	}
 	g.idxs = append(g.idxs, idx)
 	g.traces = append(g.traces, last.trace)
+	if last.assertAction != "" {
+		if g.asserts == nil {
+			g.asserts = map[uint64][3]string{}
+		}
+		g.asserts[idx] = [3]string{last.assertAction, last.assertSelf, last.assertWhat}
+	}
 	last.valid = false
 }
 
@@ -248,6 +280,27 @@ func (b *batch) Flush() (map[uint64]harness.BatchVerdict, error) {
 			out[rest.idxs[v.TraceIdx]] = harness.BatchVerdict{Rule: rule, Detail: fmt.Sprintf("%s (%s): %s\n  before: %s\n  after:  %s", rest.sys.Name, key, what, pre, renderState(rest.sys, tr.States[v.Step]))}
 			rest = &group{sys: rest.sys, idxs: append(append([]uint64{}, rest.idxs[:v.TraceIdx]...), rest.idxs[v.TraceIdx+1:]...),
 				traces: append(append([]tlc.Trace{}, rest.traces[:v.TraceIdx]...), rest.traces[v.TraceIdx+1:]...)}
+		}
+		// runs that ended with an assertion failure in Go: the specification's action must fail
+		// its assertion in the state the run had reached (and the trace up to there was valid)
+		for k, idx := range g.idxs {
+			as, ok := g.asserts[idx]
+			if !ok {
+				continue
+			}
+			if _, bad := out[idx]; bad {
+				continue
+			}
+			tr := g.traces[k]
+			fails, outp, err := tlc.AssertionFails(g.sys, tr.States[len(tr.States)-1], as[0], as[1], filepath.Join(dir, "a"))
+			os.RemoveAll(filepath.Join(dir, "a"))
+			if err != nil {
+				os.RemoveAll(dir)
+				return nil, fmt.Errorf("%s: assertion check: %v\n%s", key, err, tail(outp, 40))
+			}
+			if !fails {
+				out[idx] = harness.BatchVerdict{Rule: "go_assertion_" + g.sys.Name, Detail: fmt.Sprintf("%s (%s): %s; the specification's action %s(%s) does not fail an assertion in that state\n  state: %s", g.sys.Name, key, as[2], as[0], as[1], renderState(g.sys, tr.States[len(tr.States)-1]))}
+			}
 		}
 		os.RemoveAll(dir)
 	}
@@ -294,8 +347,10 @@ func TestWorker(t *testing.T) {
 		bs = 100
 	}
 	harness.Worker(t, harness.Spec{
-		Property:  "C02",
-		Configure: func(seed uint64, tier string) sim.RunConfig { return sim.RunConfig{MaxSteps: 1_000_000, StepCost: 1000} },
+		Property: "C02",
+		Configure: func(seed uint64, tier string) sim.RunConfig {
+			return sim.RunConfig{MaxSteps: 1_000_000, StepCost: 1000}
+		},
 		Scenario:  scenario,
 		Batch:     &batch{},
 		BatchSize: bs,
